@@ -71,11 +71,11 @@ def snapshot(root, skip):
     return out
 
 
-def judge(dest, scratch_root, before_outside, out, run_status):
+def judge(dest, scratch_root, before_outside, out, run_status, skip=None):
     st, val = run_status
     if st == "hang":
         return False, "hang", {"observed": "non-termination"}
-    after_outside = snapshot(scratch_root, os.path.abspath(dest))
+    after_outside = snapshot(scratch_root, skip or os.path.abspath(dest))
     escaped = sorted(after_outside - before_outside)
     if escaped:
         return False, "escaped-destination", {"created_outside": [os.path.relpath(p, scratch_root) for p in escaped[:4]]}
@@ -131,16 +131,21 @@ def run_case(case):
         before = snapshot(root, os.path.abspath(dest))
         cwd = os.getcwd()
         os.chdir(work)
+        # how the destination is spelled on the command line (the process works in <scratch>/w/deep)
+        dest_arg = {"abs": dest, "rel": "dest", "dot": "./dest/", "dotdot": "dest/../dest", "nested": os.path.join(dest, "a", "b")}[case.get("dest", "abs")]
+        skip = os.path.abspath(dest)
+        if case.get("dest") == "nested":
+            dest = os.path.join(dest, "a", "b")
         try:
             with captured_stdout() as buf:
                 def go():
                     img = tree.open_image(src.getvalue()) if isinstance(src, io.BytesIO) else src
-                    export_samples_to_wav(img, dest)
+                    export_samples_to_wav(img, dest_arg)
                 status = guarded(go, 30.0)
             out = buf.getvalue()
         finally:
             os.chdir(cwd)
-        ok, klass, detail = judge(dest, root, before, out, status)
+        ok, klass, detail = judge(dest, root, before, out, status, skip)
         for p in (extra_watch, extra_watch + ".wav"):
             if os.path.lexists(p):
                 import shutil
@@ -200,6 +205,13 @@ class Check(CheckBase):
         if not self.quick:
             for t in itertools.product(rhost[:12], repeat=3):
                 rol.append({"kind": "roland_sample", "names": list(t)})
+        # destination spellings (relative, ./x/, with .., not yet existing nested directory)
+        for dest in ("rel", "dot", "nested"):
+            for t in (["A", "A"], ["A L", "A R"], ["..", "A."]):
+                cases.append({"kind": "akai_files", "names": t, "dest": dest})
+            for t in (["../x", ABS], ["a/b", "a\\b"], ["a", "a"]):
+                cases.append({"kind": "cdda", "names": t, "dest": dest})
+            rol.append({"kind": "roland_sample", "names": ["../x", "a"], "dest": dest})
         return self.chunk(cases, 80) + self.chunk(rol, 8)
 
     def run_shard(self, shard, rep: Report):
